@@ -56,7 +56,9 @@ LAYER_NAMES = ["L0", "L1", "L2", "L3"]
 def instances(tier: str) -> list[dict]:
     rnd = random.Random(runner.seed() + 5)
     out = []
-    plan = [("T5a", "neutral", 3, 6), ("T5b", "adv", 2, 4), ("T4", "adv", 3, 3)] if tier == "quick" else [
+    # fewer layers than pairwise-unrelated modules => some layer lists several modules (intra-layer imports)
+    plan = [("T5a", "neutral", 3, 6), ("T5b", "adv", 2, 4), ("T4", "adv", 3, 3), ("T4", "neutral", 2, 6), ("T5a", "adv", 2, 6)] if tier == "quick" else [
+        ("T4", "neutral", 2, 6), ("T4", "adv", 2, 6), ("T5a", "neutral", 2, 10), ("T5a", "adv", 2, 10), ("T6b", "neutral", 2, 8),
         ("T5a", "neutral", 3, 14), ("T5a", "adv", 3, 8), ("T5b", "neutral", 2, 8), ("T5b", "adv", 2, 8), ("T5d", "neutral", 3, 8), ("T4", "adv", 3, 6), ("T6a", "neutral", 4, 8), ("T6b", "neutral", 3, 8),
     ]
     for tree, naming, nl, limit in plan:
@@ -77,8 +79,21 @@ def instances(tier: str) -> list[dict]:
                     for d in ("access", "accessed"):
                         out.append({"tree": tree, "naming": naming, "spec": LayerSpec(layers, "should_not", d, False, LAYER_NAMES[si], (), True).as_json()})
     if tier == "quick":
+        # stratified sample: every (shape, any-layer alias, subject layer listing one / several modules,
+        # definition mode of the subject layer) class is represented
         rnd.shuffle(out)
-        out = out[:420]
+        groups: dict = {}
+        for i in out:
+            sp = i["spec"]
+            subj = [l for l in sp["layers"] if l[0] == sp["subject"]][0]
+            multi = (len(subj[2]) > 1) if subj[1] == "names" else ("|" in subj[2][0])
+            groups.setdefault((sp["verb"], sp["direction"], sp["except"], sp["anything"], multi, subj[1]), []).append(i)
+        out = []
+        per = max(1, 420 // max(1, len(groups)))
+        for k in sorted(groups, key=str):
+            out.extend(groups[k][:per])
+        rest = [i for k in sorted(groups, key=str) for i in groups[k][per:]]
+        out.extend(rest[: max(0, 420 - len(out))])
     for i in out:
         i["cap"] = CAPS[tier]
     return out
